@@ -30,6 +30,7 @@
 /* ---------------------------------------------------------------- crc (T) */
 /* STUB: ext2fs_crc32c_le is replaced by the left fold s' = rotl(s,1) ^ byte: like crc32c it satisfies crc(crc(s,A),B) == crc(s,A||B), which is all undo_io.c/e2undo.c rely on (the real crc32c is C14's subject). For buffers longer than one undo block (the 508-byte header, the 1024-byte superblock) the stub folds the first CRC_LONG bytes and the length only */
 #define CRC_LONG 96
+static int vf_light;	/* set to a constant by a harness for a phase in which header / superblock copies and their crcs need not be modelled */
 static inline __u32 ref_crc_step(__u32 s, unsigned char b)
 {
 	return ((s << 1) | (s >> 31)) ^ b;
@@ -45,6 +46,8 @@ static __u32 ref_crc(__u32 crc, unsigned char const *p, size_t len)
 		for (i = 0; i < TDS; i++)
 			if (i < len)
 				crc = ref_crc_step(crc, p[i]);
+	} else if (vf_light) {
+		crc ^= (__u32) len;	/* light phase: header / superblock crcs are not modelled */
 	} else {
 		for (i = 0; i < CRC_LONG; i++)
 			if (i < len)
@@ -65,7 +68,7 @@ __u32 ext2fs_crc32c_le(__u32 crc, unsigned char const *p, size_t len)
 static unsigned char vf_W[NW];
 static unsigned long long vf_wbase;
 static int vf_bm_obj, vf_bm_alloc, vf_bm_free;
-static int vf_light;	/* set (to a constant) by a harness for a phase in which header / superblock copies need not be modelled */
+static int vf_light_unused_decl;	/* (vf_light is declared above the crc stub) set (to a constant) by a harness for a phase in which header / superblock copies need not be modelled */
 static int vf_w_oob;	/* an id outside the window was used: asserted to be 0 at the end of each harness */
 
 int ext2fs_test_generic_bmap(ext2fs_generic_bitmap bm, __u64 arg)
